@@ -23,11 +23,12 @@ def GoodArg (conv : List (Ty × Ty)) (fns : List (Nat × Fn)) (nm : Field → Fi
 theorem ctorFunc_some {f p : Field} {fns : List (Nat × Fn)} {k : Nat} (h : ctorFunc f p fns = some k) :
     ∃ fn, (k, fn) ∈ fns ∧ fn.param = f.ty ∧ fn.result = p.ty := by
   unfold ctorFunc at h
-  cases hl : (fns.filter (fun kf => kf.2.param == f.ty && kf.2.result == p.ty)).getLast? with
-  | none => simp [hl] at h
+  cases hl : (fns.filter (fun kf => kf.2.param == f.ty && kf.2.result == p.ty)).head? with
+  | none => rw [hl] at h; cases h
   | some kf =>
-    simp only [hl, Option.map_some, Option.some.injEq] at h
-    have hm := List.mem_of_getLast? hl
+    rw [hl] at h
+    simp only [Option.map_some, Option.some.injEq] at h
+    have hm := List.mem_of_head? hl
     simp only [List.mem_filter, Bool.and_eq_true, beq_iff_eq] at hm
     exact ⟨kf.2, by rw [← h]; exact hm.1, hm.2.1, hm.2.2⟩
 
@@ -61,14 +62,14 @@ theorem ctorVisit_inv (conv : List (Ty × Ty)) (fl : List Fn) (nm : Field → Fi
       split
       · exact h
       · split
-        · rename_i hsame
-          exact step _ hset' hnm' (by simpa [justifiedArg, matchType] using hsame)
+        · rename_i k hk
+          exact step _ hset' hnm' (ctorFunc_some hk)
         · split
-          · rename_i hcv
-            exact step _ hset' hnm' (by simpa [justifiedArg] using hcv)
+          · rename_i hsame
+            exact step _ hset' hnm' (by simpa [justifiedArg, matchType] using hsame)
           · split
-            · rename_i k hk
-              exact step _ hset' hnm' (ctorFunc_some hk)
+            · rename_i hcv
+              exact step _ hset' hnm' (by simpa [justifiedArg] using hcv)
             · exact h
 
 theorem ctorFold_inv (conv : List (Ty × Ty)) (fl : List Fn) (nm : Field → Field → Bool) (fields params : List Field)
@@ -94,6 +95,73 @@ theorem ctorFold_good (conv : List (Ty × Ty)) (fl : List Fn) (nm : Field → Fi
     obtain ⟨f, hf, p, hp, rfl⟩ := hfp
     exact ⟨hf, hp⟩
   · simp
+
+/-! ## the write-set the constructor match starts from (fields the manual hooks own) -/
+
+theorem ctorVisit_mono (conv : List (Ty × Ty)) (fl : List Fn) (nm : Field → Field → Bool)
+    (acc : List String × List CtorArg) (fp : Field × Field) : ∀ n ∈ acc.1, n ∈ (ctorVisit conv fl nm acc fp).1 := by
+  intro n hn
+  unfold ctorVisit
+  repeat' split
+  all_goals first | exact hn | exact List.mem_cons_of_mem _ hn
+
+theorem ctorVisit_fresh (conv : List (Ty × Ty)) (fl : List Fn) (nm : Field → Field → Bool) (ws : List String)
+    (acc : List String × List CtorArg) (fp : Field × Field) (hsub : ∀ n ∈ ws, n ∈ acc.1)
+    (h : ∀ a ∈ acc.2, a.p.name ∉ ws) : ∀ a ∈ (ctorVisit conv fl nm acc fp).2, a.p.name ∉ ws := by
+  have step : ∀ (s : Strat), ¬ (acc.1.contains fp.2.name = true) →
+      ∀ a ∈ acc.2 ++ [⟨fp.2, some fp.1, s⟩], a.p.name ∉ ws := by
+    intro s hc a ha
+    rcases List.mem_append.mp ha with ha | ha
+    · exact h a ha
+    · simp only [List.mem_singleton] at ha
+      subst ha
+      intro hw
+      exact hc (by simpa using hsub _ hw)
+  unfold ctorVisit
+  split
+  · exact h
+  · split
+    · exact h
+    · split
+      · exact h
+      · rename_i hc
+        repeat' split
+        all_goals first | exact h | exact step _ hc
+
+theorem ctorFold_ws (conv : List (Ty × Ty)) (fl : List Fn) (nm : Field → Field → Bool) (ws : List String)
+    (vs : List (Field × Field)) (acc : List String × List CtorArg) (hsub : ∀ n ∈ ws, n ∈ acc.1)
+    (h : ∀ a ∈ acc.2, a.p.name ∉ ws) :
+    (∀ n ∈ ws, n ∈ (vs.foldl (ctorVisit conv fl nm) acc).1) ∧ ∀ a ∈ (vs.foldl (ctorVisit conv fl nm) acc).2, a.p.name ∉ ws := by
+  induction vs generalizing acc with
+  | nil => exact ⟨hsub, h⟩
+  | cons fp vs ih =>
+    simp only [List.foldl_cons]
+    exact ih _ (fun n hn => ctorVisit_mono conv fl nm acc fp n (hsub n hn)) (ctorVisit_fresh conv fl nm ws acc fp hsub h)
+
+/-- names in the write-set before the constructor is matched (the fields a manual hook assigns) stay in it, and no
+    constructor argument carries a value for such a name -/
+theorem ctorMatch_ws (conv : List (Ty × Ty)) (fl : List Fn) (nm : Field → Field → Bool) (fields params : List Field)
+    (ws : List String) :
+    (∀ n ∈ ws, n ∈ (ctorMatch conv fl nm fields params ws).1) ∧
+    (∀ args, (ctorMatch conv fl nm fields params ws).2 = some args → ∀ a ∈ args, a.p.name ∈ ws → a.rd = none) := by
+  have hf := ctorFold_ws conv fl nm ws (fields.flatMap (fun f => params.map (fun p => (f, p)))) (ws, []) (fun _ h => h) (by simp)
+  unfold ctorMatch
+  split
+  · exact ⟨fun _ h => h, fun args h => by cases h⟩
+  · split
+    · exact ⟨fun _ h => h, fun args h => by cases h⟩
+    · refine ⟨hf.1, ?_⟩
+      intro args hargs a ha hw
+      simp only [Option.some.injEq] at hargs
+      subst hargs
+      simp only [List.mem_map] at ha
+      obtain ⟨p, _, rfl⟩ := ha
+      cases hfind : List.find? (fun a => a.p == p) (ctorFold conv fl nm fields params ws).2 with
+      | none => rfl
+      | some a =>
+        exfalso
+        rw [hfind] at hw
+        exact hf.2 a (List.mem_of_find?_eq_some hfind) hw
 
 /-- the argument list of the constructor call: one argument per parameter, in parameter order, each
     either the zero literal or a justified value read from a name-matched readable field -/
